@@ -85,7 +85,10 @@ def run_case(case, rec):
                     rec.cmp(1, f"{fam}|{'occurring' if nm in used else 'non-occurring'}")
         finally:
             AD._RECURSION_THRESHOLD = old
-    rec.paths["gradient-cache-hits"] = AD._gradient_cached.cache_info().hits
+    try:
+        rec.paths["gradient-cache-hits"] = AD._gradient_cached.cache_info().hits
+    except Exception:
+        pass
 
     nbad, worst = {}, {}
     for pt in case["points"]:
